@@ -7,6 +7,9 @@ from sa.query import Facts, call_name, find_calls, try_fold, calls_in, defs_of
 from sa.prov import Prov
 from sa.exc import ExcAnalysis
 from .c06 import _strip
+from .c01 import _fold_rep
+from sa.canon import hash_stream, canon_dict_iter
+from sa.layout import Layout
 from .c07 import struct_table
 from .common import firmware, doc
 
@@ -141,6 +144,13 @@ def run(run):
     _sgx(run)
     _message(run)
     _keys_hash(run)
+    # "accepted only if the chain verifies": the verdicts both verify commands rely on come from the shared chain walk
+    from . import c06
+    run.rid_prefix = "W."
+    try:
+        c06.chain_walk(run, Facts(A), Prov(A), P.cls("admin.certificate_v1.HSMCertificate"))
+    finally:
+        run.rid_prefix = ""
 
 
 def _admin_error_only(run, v, rid):
@@ -220,64 +230,75 @@ def _ledger(run):
                           f"(no dominating `{alts[0][:120]}`)")
     # header: legacy or current
     smsg = f"bytes.fromhex({res}['signer'][1])"
-    hdr_conds = [n for n in g.nodes if n.kind == "cond" and "is_header" in norm(n.ast)]
-    lm_conds = [n for n in g.nodes if n.kind == "cond" and norm(n.ast) == "lmh_match is None"]
-    run.check("R1", bool(hdr_conds) and bool(lm_conds), "signer header tests present", key=f"{fn.qualname}|signer-header-tests",
-              where=fn.loc(), message="the signer message header tests vanished")
-    for hc in hdr_conds:
-        # reaching the exit with is_header false requires the legacy match
-        fnode = [n for n in g.nodes if n.kind == "F" and n.cond is hc]
-        facts_f = v.fact_texts(fnode[0]) if fnode else set()
-        ok = v.other_edge_raises(hc, "T") and any("lmh_match" in norm(f.left) and f.op == "is" for f in v.facts(hc)
-                                                   if f.kind == "cmp")
-        run.check("R1", ok, "neither legacy nor powHSM header => error", key=f"{fn.qualname}|signer-header",
-                  where=fn.loc(hc.ast), message="a signer message with neither the legacy nor the powHSM header "
-                  "does not end in an error")
-    # hash comparison
-    want_ph0 = {_strip("compute_pubkeys_hash(load_pubkeys(options.pubkeys_file_path))")}
-    hc = [n for n in g.nodes if n.kind == "cond" and isinstance(n.ast, ast.Compare) and len(n.ast.ops) == 1
-          and isinstance(n.ast.ops[0], (ast.Eq, ast.NotEq))
-          and (v.exp(n.ast.left, n) == want_ph0 or v.exp(n.ast.comparators[0], n) == want_ph0)]
-    run.require(len(hc) == 1, "ledger verify: the keys-hash comparison vanished")
-    hcn = hc[0]
-    run.check("R1", g.dominates(hcn, g.exit) and isinstance(hcn.ast.ops[0], ast.NotEq) and v.other_edge_raises(hcn, "F"),
-              "keys hash compared (whole value) before success", key=f"{fn.qualname}|hash-compare", where=fn.loc(hcn.ast),
-              message="the reported public-keys hash is not compared for equality with the computed one on every path")
-    sides = {"reported_pubkeys_hash": None, "pubkeys_hash": None}
-    for side in (hcn.ast.left, hcn.ast.comparators[0]):
-        e_ = v.exp(side, hcn)
-        sides["pubkeys_hash" if e_ == want_ph0 else "reported_pubkeys_hash"] = e_
-    want_ph = {_strip("compute_pubkeys_hash(load_pubkeys(options.pubkeys_file_path))")}
-    run.check("R1", sides.get("pubkeys_hash") == want_ph, "expected hash = compute_pubkeys_hash(load_pubkeys(file))",
-              key=f"{fn.qualname}|expected-hash", where=fn.loc(hcn.ast),
-              message=f"the expected keys hash is {sorted(sides.get('pubkeys_hash') or [])[:1]}, not the hash of the operator's keys")
+    from sa.query import make_facts
+
+    def edge_texts(en):
+        out = set()
+        for f in make_facts(en.kind, en.ast, fn, en.cond):
+            if f.kind == "cmp":
+                for l in v.exp(f.left, en.cond):
+                    for r in v.exp(f.right, en.cond):
+                        out.add(f"{l} {f.op} {r}")
+            else:
+                for x in v.exp(f.expr, en.cond):
+                    out.add(("" if f.pol else "not ") + x)
+        return out
+    lm = _strip(f"SIGNER_LEGACY_MESSAGE_HEADER_REGEX.match({smsg})")
+    ih = _strip(f"PowHsmAttestationMessage.is_header({smsg})")
+    legacy_edges, current_edges, header_edges = [], [], []
+    for en in [n for n in g.nodes if n.kind in ("T", "F") and n.cond is not None and n.cond.kind == "cond"]:
+        ts = edge_texts(en)
+        if f"{lm} is not None" in ts:
+            legacy_edges.append(en)
+        if f"{lm} is None" in ts:
+            current_edges.append(en)
+        if ih in ts:
+            header_edges.append(en)
+    def last(edges, others):
+        """edges after which no further test of the same family follows"""
+        conds = {e.cond for e in edges + others}
+        return [e for e in edges if not any(c is not e.cond and c in g.reachable(e, edge_ok=lambda a, b: not g.is_exc_edge(a, b)) for c in conds)]
+    legacy_last = last(legacy_edges, current_edges)
+    current_last = last(current_edges + header_edges, legacy_edges)
+    run.check("R1", bool(legacy_edges) and bool(header_edges), "signer header tests present", key=f"{fn.qualname}|signer-header-tests",
+              where=fn.loc(), message="the signer message header tests (legacy regex match / PowHsmAttestationMessage.is_header) vanished")
+    noexc = lambda a, b: not g.is_exc_edge(a, b)   # noqa: E731
+    p_ = g.witness_path(g.entry, g.exit, avoid=set(legacy_edges) | set(header_edges), edge_ok=noexc)
+    run.check("R1", p_ is None, "neither legacy nor powHSM header => error", key=f"{fn.qualname}|signer-header",
+              where=fn.loc(), message="a signer message with neither the legacy nor the powHSM header does not end in an error",
+              witness=g.describe_path(p_) if p_ else None)
+    # hash comparison: at the normal exit `reported == expected` holds, whole values, for both message formats
+    want_ph0 = _strip("compute_pubkeys_hash(load_pubkeys(options.pubkeys_file_path))")
     shl = f"len(SIGNER_LEGACY_MESSAGE_HEADER_REGEX.match({smsg}).group(0))"
-    want_rep = {_strip(f"{smsg}[{shl}:]"), _strip(f"PowHsmAttestationMessage({smsg}, name='Signer').public_keys_hash")}
-    rep = sides.get("reported_pubkeys_hash") or set()
-    run.check("R1", rep == want_rep, "reported hash = rest of the legacy message / public_keys_hash field",
-              key=f"{fn.qualname}|reported-hash", where=fn.loc(hcn.ast),
+    want_rep = {_strip(_fold_names(f"{smsg}[{shl}:]", consts)), _strip(f"PowHsmAttestationMessage({smsg}, name='Signer').public_keys_hash")}
+    rep = set()
+    for t in texts:
+        if t.endswith(" == " + want_ph0):
+            rep.add(t[:-len(" == " + want_ph0)])
+        elif t.startswith(want_ph0 + " == "):
+            rep.add(t[len(want_ph0 + " == "):])
+    run.check("R1", bool(rep), "keys hash compared (whole value) before success", key=f"{fn.qualname}|hash-compare", where=fn.loc(),
+              message="the reported public-keys hash is not compared for equality with compute_pubkeys_hash(load_pubkeys(file)) on every path to success")
+    run.check("R1", rep == want_rep or not rep, "reported hash = rest of the legacy message / public_keys_hash field",
+              key=f"{fn.qualname}|reported-hash", where=fn.loc(),
               message="the reported keys hash is taken from somewhere else than the signed signer message: "
                       f"{sorted(rep - want_rep)[:2]}")
+    hc_nodes = [n.cond for n in g.dominators(g.exit) if n.kind in ("T", "F") and n.cond is not None and n.cond.kind == "cond"
+                and any((" == " + want_ph0) in t or (want_ph0 + " == ") in t for t in edge_texts(n))]
+    run.require(len(hc_nodes) >= 1 or not rep, "ledger verify: the keys-hash comparison node was not identified")
+    hcn = hc_nodes[0] if hc_nodes else None
     # legacy: nothing after the hash
-    tail_conds = [n for n in g.nodes if n.kind == "cond" and isinstance(n.ast, ast.Compare)
-                  and norm(n.ast.comparators[0]) == "b''" and isinstance(n.ast.ops[0], ast.NotEq)]
-    okt = False
-    for tc in tail_conds:
-        le = v.exp(tc.ast.left, tc)
-        if le == {_strip(_fold_names(f"{smsg}[{shl} + 32:]", consts))} and v.other_edge_raises(tc, "F"):
-            # and it lies on every legacy path to the hash comparison
-            legacy_T = [n for n in g.nodes if n.kind == "T" and n.cond is not None and norm(n.cond.ast) == "lmh_match is not None"]
-            fedge = [n for n in g.nodes if n.kind == "F" and n.cond is tc]
-            if legacy_T and fedge and g.all_paths_pass(legacy_T[0], hcn, set(fedge)):
-                okt = True
+    tail_want = _strip(_fold_names(f"{smsg}[{shl} + 32:]", consts))
+    tail_ok_edges = [en for en in g.nodes if en.kind in ("T", "F") and en.cond is not None and en.cond.kind == "cond"
+                     and (f"{tail_want} == b''" in edge_texts(en) or f"len({tail_want}) == 0" in edge_texts(en))]
+    okt = bool(tail_ok_edges) and hcn is not None and all(g.all_paths_pass(le, hcn, set(tail_ok_edges)) for le in legacy_last) and bool(legacy_last)
     run.check("R1", okt, "legacy message: nothing after the 32-byte hash", key=f"{fn.qualname}|legacy-exact-length",
               where=fn.loc(), message="on the legacy-header path a signer message with extra bytes after the "
               "32-byte keys hash is not rejected (the length check is missing, bounded, or made on an already "
               "truncated slice)")
     # current: parse
-    cur_F = [n for n in g.nodes if n.kind == "F" and n.cond is not None and norm(n.cond.ast) == "lmh_match is not None"]
     pm = [x for c in find_calls(A, fn, "PowHsmAttestationMessage") if norm(c.func) == "PowHsmAttestationMessage" for x in g.nodes_of(c)]
-    run.check("R1", bool(cur_F) and bool(pm) and g.all_paths_pass(cur_F[0], hcn, set(pm)),
+    run.check("R1", bool(current_last) and bool(pm) and hcn is not None and all(g.all_paths_pass(ce, hcn, set(pm)) for ce in current_last),
               "current format: PowHsmAttestationMessage parsed (exact length)", key=f"{fn.qualname}|current-parse",
               where=fn.loc(), message="on the powHSM-header path the message is not parsed by PowHsmAttestationMessage "
               "before the hash comparison")
@@ -387,22 +408,24 @@ def _message(run):
              "115 bytes); header pattern ^POWHSM:(5.[0-9]):: ; legacy/UI patterns ^HSM:SIGNER:/^HSM:UI:.")
     M = P.cls("admin.attestation_utils.PowHsmAttestationMessage")
     ini = P.method(M, "__init__")
-    ef = {f.text() for f in F.exit_facts(ini, M)}
-    run.check("R2", "match is not None" in ef, "header must match", key="PowHsmAttestationMessage.__init__|header",
+    PVm = Prov(A)
+    ef = {_strip(t) for t in F.exit_texts(ini, M, PVm)}
+    mt = "self.HEADER_REGEX.match(value)"
+    run.check("R2", f"{mt} is not None" in ef or "match is not None" in ef, "header must match", key="PowHsmAttestationMessage.__init__|header",
               where=ini.loc(), message="PowHsmAttestationMessage can be built from a message without the header")
-    run.check("R2", "len(value[offset:]) == expected_length" in ef, "exact length enforced",
+    run.check("R2", any(t in ef for t in (f"len(value[offset:]) == len({mt}.group(0)) + self.get_bytelength()",
+                                          f"len(value[offset:]) == self.get_bytelength() + len({mt}.group(0))")), "exact length enforced",
               key="PowHsmAttestationMessage.__init__|exact-length", where=ini.loc(),
-              message="PowHsmAttestationMessage no longer requires len(message) == header + struct size exactly "
+              message="PowHsmAttestationMessage no longer requires len(message) == len(matched header) + struct size exactly "
                       "(truncated or extended messages would be accepted)")
-    el = defs_of(A, ini, "expected_length")
-    hl = defs_of(A, ini, "header_length")
-    run.check("R2", len(el) == 1 and norm(el[0].value) == "header_length + self.get_bytelength()"
-              and len(hl) == 1 and norm(hl[0].value) == "len(match.group(0))",
-              "expected length = matched header + struct size", key="PowHsmAttestationMessage.__init__|expected-length",
-              where=ini.loc(), message="expected_length is not len(header) + struct size")
     sup = [c for c in find_calls(A, ini, "__init__")]
-    run.check("R2", len(sup) == 1 and [norm(a) for a in sup[0].args] == ["value", "offset + header_length", "little"],
-              "struct parsed right after the header", key="PowHsmAttestationMessage.__init__|parse-offset", where=ini.loc(),
+    gi_ = A.cfg(ini, M)
+    oksup = len(sup) == 1 and len(sup[0].args) == 3
+    if oksup:
+        for cn in gi_.nodes_of(sup[0]):
+            a1 = {_strip(x) for x in PVm.expand_consistent(ini, M, sup[0].args[1], cn)}
+            oksup = norm(sup[0].args[0]) == "value" and a1 == {_strip(f"offset + len({mt}.group(0))")} and norm(sup[0].args[2]) == "little"
+    run.check("R2", oksup, "struct parsed right after the header", key="PowHsmAttestationMessage.__init__|parse-offset", where=ini.loc(),
               message="the struct is not parsed at offset + header length")
     t = struct_table(run)
     run.require("pow_hsm_message_header" in t, "PowHsmAttestationMessage struct spec vanished")
@@ -413,6 +436,22 @@ def _message(run):
         run.check("R2", fm.get(nm) == (off, s), f"{nm} at {off} (+{s})", key=f"PowHsmAttestationMessage|{nm}|offset",
                   where=ci.module.relpath, message=f"PowHsmAttestationMessage.{nm} is at {fm.get(nm)}, documented ({off}, {s})")
         off += s
+    # field types and decoding: raw byte arrays in the spec; platform decoded as ASCII, timestamp as a big-endian unsigned integer
+    spec_doc = ast.get_docstring(ci.node, clean=False) or ""
+    spec_lines = [re.sub(r"\s+", " ", l.strip()) for l in spec_doc.split("\n") if l.strip()][1:]
+    run.check("R2", spec_lines == [f"uint8_t {nm} {s_}" for nm, s_ in want], "every field is a raw byte array in the struct spec",
+              key="PowHsmAttestationMessage|field-types", where=ci.module.relpath,
+              message=f"PowHsmAttestationMessage spec is {spec_lines}: a field declared as an integer type is decoded with the struct's (little-endian) "
+                      "byte order instead of the documented big-endian one")
+    conv = {}
+    for n_ in A.own_nodes(ini):
+        if isinstance(n_, ast.Assign) and len(n_.targets) == 1 and isinstance(n_.targets[0], ast.Attribute) and norm(n_.targets[0].value) == "self" \
+                and n_.targets[0].attr in [w[0] for w in want]:
+            conv[n_.targets[0].attr] = _strip(norm(n_.value))
+    run.check("R2", conv == {"platform": _strip("self.platform.decode('ASCII')"),
+                             "timestamp": _strip("int.from_bytes(self.timestamp, byteorder='big', signed=False)")},
+              "platform decoded as ASCII, timestamp as big-endian unsigned", key="PowHsmAttestationMessage|conversions", where=ini.loc(),
+              message=f"field conversions after parsing are {conv}; documented: platform ASCII text, timestamp big-endian unsigned integer, everything else raw bytes")
     run.check("R2", sz == 115 and len(fm) == 6, "struct is 115 bytes, 6 fields", key="PowHsmAttestationMessage|size",
               where=ci.module.relpath, message=f"PowHsmAttestationMessage struct is {sz} bytes / {len(fm)} fields")
     # docs: field list sizes
@@ -433,14 +472,22 @@ def _message(run):
                   message=f"firmware ATT_MSG_PREFIX `{pre}` does not match the verifier's header pattern")
     else:
         run.note("ATT_MSG_PREFIX not found as a plain #define; prefix agreement with firmware not checked")
-    for nm, pat in (("UI_MESSAGE_HEADER_REGEX", b"^HSM:UI:([2345].[0-9])"), ("SIGNER_LEGACY_MESSAGE_HEADER_REGEX", b"^HSM:SIGNER:([2345].[0-9])")):
-        r = P.module_const("admin.verify_ledger_attestation", nm)
-        run.check("R2", isinstance(r, Obj) and r.args and r.args[0] == pat, f"{nm} pattern", key=f"verify_ledger_attestation|{nm}",
-                  where="middleware/admin/verify_ledger_attestation.py", message=f"{nm} is {r}")
+    header_patterns(run, "R2")
     ih = P.method(M, "is_header")
     rr = [n for n in A.own_nodes(ih) if isinstance(n, ast.Return)]
     run.check("R2", len(rr) == 1 and norm(rr[0].value) == "cls.HEADER_REGEX.match(value) is not None", "is_header uses the header regex",
               key="PowHsmAttestationMessage.is_header|expr", where=ih.loc(), message="is_header changed")
+
+
+def header_patterns(run, rid="R2"):
+    """Header patterns of the Ledger verify command: fixed-width `major.minor` (shared with C15)."""
+    P = run.P
+    for nm, pat in (("UI_MESSAGE_HEADER_REGEX", b"^HSM:UI:([2345].[0-9])"), ("SIGNER_LEGACY_MESSAGE_HEADER_REGEX", b"^HSM:SIGNER:([2345].[0-9])")):
+        r = P.module_const("admin.verify_ledger_attestation", nm)
+        run.check(rid, isinstance(r, Obj) and r.args and r.args[0] == pat, f"{nm} pattern", key=f"verify_ledger_attestation|{nm}",
+                  where="middleware/admin/verify_ledger_attestation.py",
+                  message=f"{nm} is {r}: the headers carry no terminator, so anything but the fixed-width `x.y` pattern lets payload bytes that look like digits "
+                          "be swallowed into the version and shifts every field offset (genuine devices rejected / wrong values reported)")
 
 
 def _keys_hash(run):
@@ -452,41 +499,44 @@ def _keys_hash(run):
              "returned; an empty map raises; load_pubkeys parses every value as a secp256k1 key or raises.")
     fn = P.func("admin.attestation_utils.compute_pubkeys_hash")
     g = A.cfg(fn, None)
-    loops = [n for n in ast.walk(fn.node) if isinstance(n, ast.For)]
-    run.require(len(loops) == 1, "compute_pubkeys_hash: loop not found")
-    lp = loops[0]
-    it = lp.iter
-    ok_sort = isinstance(it, ast.Call) and call_name(it) == "sorted" and not it.keywords and len(it.args) == 1 \
-        and norm(it.args[0]) in ("pubkeys_map.keys()", "pubkeys_map")
-    run.check("R3", ok_sort, "keys iterated in sorted(paths) order (no custom key, not reversed)",
-              key="compute_pubkeys_hash|order", where=fn.loc(lp),
-              message=f"compute_pubkeys_hash iterates `{norm(it)}`: the documented order is the plain lexicographic "
-                      "order of the path strings (a custom sort key / reverse changes the hash for unusual paths)")
-    ups = [n for n in ast.walk(lp) if isinstance(n, ast.Call) and call_name(n) == "update"]
-    run.check("R3", len(ups) == 1, "one update per key", key="compute_pubkeys_hash|updates", where=fn.loc(lp),
-              message=f"{len(ups)} digest updates per key")
-    for u in ups:
-        for un in g.nodes_of(u):
-            got = {_strip(x) for x in PV.expand_consistent(fn, None, u, un)}
-            want = _strip(f"hashlib.sha256().update(pubkeys_map[ELEM({norm(it)})].serialize(compressed=False))")
-            run.check("R3", got == {want}, "update(uncompressed key of that path)", key="compute_pubkeys_hash|update-expr",
-                      where=fn.loc(u), message=f"digest update is {sorted(got)[:1]}, expected `{want}`")
+    pm_ = fn.params[0]
+    L = Layout(lambda e: try_fold(P, e, fn, None))
+    got = set()
     rr = [n for n in A.own_nodes(fn) if isinstance(n, ast.Return)]
+    run.floor("R3", "returns of compute_pubkeys_hash", len(rr), 1)
     for r in rr:
+        v = r.value
+        if not (isinstance(v, ast.Call) and isinstance(v.func, ast.Attribute) and v.func.attr == "digest" and not v.args):
+            got.add("?" + norm(v))
+            continue
         for rn in g.nodes_of(r):
-            got = {_strip(x) for x in PV.expand_consistent(fn, None, r.value, rn)}
-            run.check("R3", got == {"hashlib.sha256().digest()"}, "returns the digest of that object",
-                      key="compute_pubkeys_hash|return", where=fn.loc(r), message=f"returns {sorted(got)}")
-            facts = {f.text() for f in F.local(fn, None, rn)}
-            run.check("R3", "len(pubkeys_map) != 0" in facts, "empty key map is an error", key="compute_pubkeys_hash|empty",
+            got |= _fold_rep({canon_dict_iter(hash_stream(L, x)) for x in PV.expand_consistent(fn, None, v.func.value, rn)})
+            facts = {_strip(t) for t in F.expanded(fn, None, rn, PV)}
+            run.check("R3", f"len({pm_}) != 0" in facts or f"len({pm_}) > 0" in facts or pm_ in facts, "empty key map is an error", key="compute_pubkeys_hash|empty",
                       where=fn.loc(r), message="compute_pubkeys_hash accepts an empty key map")
-    hs = [n for n in A.own_nodes(fn) if isinstance(n, ast.Call) and norm(n.func) == "hashlib.sha256"]
-    run.check("R3", len(hs) == 1 and not hs[0].args, "single fresh SHA-256 object", key="compute_pubkeys_hash|hash-object",
-              where=fn.loc(), message="compute_pubkeys_hash does not use exactly one fresh sha256 object")
+    wants = {f"hashlib.sha256() | repeat({pm_}[ELEM(sorted({pm_}.keys()))].serialize(compressed=False))",
+             f"hashlib.sha256() | repeat({pm_}[ELEM(sorted({pm_}))].serialize(compressed=False))"}
+    run.check("R3", len(got) == 1 and got <= wants, "SHA-256 over the uncompressed keys in plain lexicographic path order", key="compute_pubkeys_hash|update-expr",
+              where=fn.loc(), message=f"compute_pubkeys_hash returns the digest of {sorted(got)[:2]}; the documented value is `{sorted(wants)[0]}` (a custom "
+              "sort key / reverse / another serialisation changes the hash)")
+    for u in [n for n in A.own_nodes(fn) if isinstance(n, ast.Call) and call_name(n) == "update"]:
+        for un in g.nodes_of(u):
+            conds = [f.text() for f in F.local(fn, None, un) if f.text() not in (f"len({pm_}) != 0",)]
+            run.check("R3", not conds, "every key is hashed unconditionally", key="compute_pubkeys_hash|conditional-update", where=fn.loc(u),
+                      message=f"the digest update is conditional on {conds}")
+    for lp in [n for n in A.own_nodes(fn) if isinstance(n, (ast.For, ast.While))]:
+        exits = [n for n in ast.walk(lp) if isinstance(n, (ast.Break, ast.Continue, ast.Return))]
+        run.check("R3", isinstance(lp, ast.For) and not exits, "the key loop has no early exit", key="compute_pubkeys_hash|loop-body", where=fn.loc(lp),
+                  message="the key loop can stop or skip: not every key is hashed")
     lp_ = P.func("admin.attestation_utils.load_pubkeys")
-    pk = [n for n in A.own_nodes(lp_) if isinstance(n, ast.Call) and norm(n.func) == "ec.PublicKey"]
-    run.check("R3", len(pk) == 1 and norm(pk[0]) == "ec.PublicKey(bytes.fromhex(pubkey), raw=True)", "keys parsed as secp256k1 points",
-              key="load_pubkeys|parse", where=lp_.loc(), message="load_pubkeys no longer parses each value with ec.PublicKey")
-    st = [n for n in A.own_nodes(lp_) if isinstance(n, ast.Assign) and norm(n.targets[0]) == "result[path]"]
-    run.check("R3", len(st) == 1 and norm(st[0].value) == "pubkey", "result keyed by the file's path strings",
-              key="load_pubkeys|store", where=lp_.loc(), message="load_pubkeys does not store each key under its path")
+    gl = A.cfg(lp_, None)
+    st = [n for n in A.own_nodes(lp_) if isinstance(n, ast.Assign) and isinstance(n.targets[0], ast.Subscript) and norm(n.targets[0].value) == "result"]
+    oks = len(st) == 1
+    gotk = gotv = None
+    if oks:
+        for sn in gl.nodes_of(st[0]):
+            gotk = {canon_dict_iter(x) for x in PV.expand_consistent(lp_, None, st[0].targets[0].slice, sn, stop=("pubkeys_map",))}
+            gotv = {canon_dict_iter(x) for x in PV.expand_consistent(lp_, None, st[0].value, sn, stop=("pubkeys_map",))}
+        oks = gotk == {"KEY(pubkeys_map)"} and gotv == {"ec.PublicKey(bytes.fromhex(VAL(pubkeys_map)), raw=True)"}
+    run.check("R3", oks, "every value parsed as a secp256k1 point and stored under its own path", key="load_pubkeys|parse", where=lp_.loc(),
+              message=f"load_pubkeys stores result[{sorted(gotk or [])}] = {sorted(gotv or [])}; expected result[path] = ec.PublicKey(bytes.fromhex(<value at path>), raw=True)")
